@@ -255,6 +255,36 @@ pub fn gen_scn(rng: &mut Rng, k: usize, with_faults: bool) -> Scn {
 		ops.push((When::Idle, Op::PathSet(set)));
 		return Scn { ops, fail: vec![(p, false, if rng.chance(1, 2) { vec![0] } else { vec![0, 1] })] };
 	}
+	if k % 8 == 1 && rng.chance(1, 2) {
+		// directed: the watcher kind and the path set change in one step (back to back, so that the worker usually sees
+		// both in one wake-up), the new set dropping a path; then the dropped path comes back
+		let mut first = vec![];
+		for n in ["a", "b", "a/c"] {
+			if rng.chance(3, 4) {
+				first.push((n.to_string(), rng.chance(2, 3)));
+			}
+		}
+		if first.len() < 2 {
+			first = vec![("a".to_string(), true), ("b".to_string(), rng.chance(1, 2))];
+		}
+		let mut second = first.clone();
+		second.remove(rng.usize(second.len()));
+		let k1 = if rng.chance(1, 2) { None } else { Some(50u64) };
+		let k2 = if k1.is_none() { Some(*rng.pick(&[50u64, 100])) } else { None };
+		let mut ops = vec![(When::Idle, Op::Kind(k1)), (When::Idle, Op::PathSet(first.clone()))];
+		if rng.chance(1, 2) {
+			ops.push((When::Idle, Op::Kind(k2)));
+			ops.push((When::BackToBack, Op::PathSet(second)));
+		} else {
+			ops.push((When::Idle, Op::PathSet(second)));
+			ops.push((When::BackToBack, Op::Kind(k2)));
+		}
+		if rng.chance(1, 3) {
+			ops.push((When::Idle, Op::Throttle(10)));
+		}
+		ops.push((When::Idle, Op::PathSet(first)));
+		return Scn { ops, fail: vec![] };
+	}
 	let n = 1 + rng.usize(4);
 	let mut ops = vec![];
 	for i in 0..n {
